@@ -409,4 +409,12 @@ def raise_origin(c: Ctx, u: Unit, n, t) -> str:
     return f' (explicit raise in {", ".join(sorted(set(sites)))})' if sites else ''
 
 
+
+@ob('C03.6', 'ORD', "pending results for all applicable handlers exist before the first handler runs (same obligation as C08.5): otherwise `await event` can return between two handlers")
+def c03_6(c: Ctx) -> None:
+    from .c08 import check_precreated_pending
+
+    check_precreated_pending(c)
+
+
 OBLIGATIONS = ob.obs
